@@ -109,12 +109,14 @@ type request struct {
 }
 
 type endpoint struct {
-	name    string
-	sess    *kcp.UDPSession
-	conn    *rconn
-	peer    *endpoint
-	dead    bool // aborted after a recovered panic
-	closing bool // Close was called: the output callback may drop packets (die is closed), best effort only
+	name     string
+	sess     *kcp.UDPSession
+	conn     *rconn
+	peer     *endpoint
+	dead     bool   // aborted after a recovered panic
+	vetoed   bool   // the harness stopped the session before an unrecoverable panic of the real code
+	capacity string // why
+	closing  bool   // Close was called: the output callback may drop packets (die is closed), best effort only
 
 	reqs    []request // requests produced since the last collect
 	written []byte
@@ -161,7 +163,30 @@ func (w *world) op(line, obs string) {
 	}
 }
 
+// expected genuine findings (DESIGN D2, D11) are reported a few times per run only, so that they
+// cannot fill the violation list and hide anything else
+var knownKindCount = map[string]int{}
+
+// tooMany tells the generators to stop exploring: enough unexpected violations were recorded
+// (going on risks an unrecoverable panic of the real code in one of its own goroutines, which
+// would lose the concrete failing inputs already found).
+func tooMany(o *hx.Out) bool {
+	n := 0
+	for _, v := range o.Res.Violations {
+		if v.Kind != "mtu-parity-after-shrink" && v.Kind != "mtu-shrink-queued" {
+			n++
+		}
+	}
+	return n >= 4
+}
+
 func (w *world) viol(kind, detail string) {
+	if kind == "mtu-parity-after-shrink" || kind == "mtu-shrink-queued" {
+		knownKindCount[kind]++
+		if knownKindCount[kind] > 3 {
+			return
+		}
+	}
 	w.nviol++
 	if w.nviol > 3 {
 		return
@@ -223,12 +248,23 @@ func newWorld(o *hx.Out, g *hx.Rng, cfg config) *world {
 		s.SetStreamMode(cfg.stream)
 		s.SetACKNoDelay(cfg.ackND)
 		s.SetWriteDelay(cfg.wdelay)
-		kcp.VerifSOTapOutput(s, func(buf []byte, size int) {
+		kcp.VerifSOTapOutput(s, func(buf []byte, size int) bool {
+			if e.vetoed {
+				return false
+			}
 			r := request{size: size}
 			if size >= 0 && size <= len(buf) {
 				r.body = append([]byte(nil), buf[:size]...)
 			}
+			if cfg.ci.model == "aead" && size >= 24 && size+e.hs+cfg.ci.overhead() > 1500 && size+e.hs <= 1500 {
+				// the pooled buffer (capacity 1500) has no room for the AEAD tag: aeadCrypt.Seal would
+				// panic inside the postProcess goroutine and take the harness down with it
+				e.vetoed = true
+				e.capacity = fmt.Sprintf("output of %d bytes + header %d + AEAD overhead %d = %d exceeds the pooled buffer capacity 1500: the AEAD wrapper's capacity test fails (panic in postProcess)", size, e.hs, cfg.ci.overhead(), size+e.hs+cfg.ci.overhead())
+				return false
+			}
 			e.reqs = append(e.reqs, r)
+			return true
 		})
 		e.mtu = 1400
 		return e
@@ -298,6 +334,15 @@ type emitted struct {
 
 func (w *world) process(e *endpoint, reqs []request, wires [][]byte) {
 	cfg := w.cfg
+	if e.vetoed && e.capacity != "" {
+		kind := "mtu-aead-capacity"
+		if e.shrinkQ {
+			kind = "mtu-shrink-queued"
+		}
+		w.viol(kind, fmt.Sprintf("%s: %s; session MTU in force %d, core mtu %d", e.name, e.capacity, e.mtu, e.coreMtu))
+		e.capacity = ""
+		e.closing = true // packets were withheld: no request accounting any more
+	}
 	now := time.Now().UnixMilli()
 	// size argument of every output call versus the core MTU
 	var live []request
@@ -698,6 +743,13 @@ func (w *world) sendOOB(e *endpoint, data []byte) {
 		return
 	}
 	max := e.sess.GetOOBMaxSize()
+	if w.cfg.ci.model == "aead" && len(data) > max && len(data)+4+e.hs+w.cfg.ci.overhead() > 1500 {
+		// if this oversize payload were wrongly accepted, the AEAD wrapper would panic inside the
+		// postProcess goroutine, which the harness cannot recover; the refusal is exercised at
+		// smaller MTUs and with the other ciphers
+		w.o.Count("sendoob:skipped-aead-capacity")
+		return
+	}
 	var err error
 	w.replay = append(w.replay, fmt.Sprintf("# %s.SendOOB(%d bytes), GetOOBMaxSize=%d", e.name, len(data), max))
 	if w.try(e, "SendOOB", func() { err = e.sess.SendOOB(data) }) != "" {
